@@ -306,7 +306,7 @@ func coreMode(seed int64, n, events int, out, profile string) {
 	of, _ := os.Create(filepath.Join(out, "core-impl.out"))
 	cw := bufio.NewWriterSize(cf, 1<<20)
 	ow := bufio.NewWriterSize(of, 1<<20)
-	agg := map[string]map[string]int{"emitted": {}, "skipped": {}, "msg_in": {}}
+	agg := map[string]map[string]int{"emitted": {}, "skipped": {}, "msg_in": {}, "msg_in_unknown_sender": {}}
 	total := 0
 	for i := 0; i < n; i++ {
 		s, rng := raftdrv.PlanSchedule(seed, i, events, "mem", profile)
@@ -325,6 +325,9 @@ func coreMode(seed int64, n, events int, out, profile string) {
 			}
 			for k, v := range stats.MsgIn {
 				agg["msg_in"][fmt.Sprint(k)] += v
+			}
+			for k, v := range stats.MsgInUnknown {
+				agg["msg_in_unknown_sender"][fmt.Sprint(k)] += v
 			}
 		}
 	}
